@@ -153,6 +153,74 @@ def judge(ctx, group, task, o, how):
     return 1
 
 
+def composed(ctx, quick):
+    """spec/Exactly.tla: the whole invocation (stages before execution, PhaseExec step by step, reporter) - the outcome
+    table over EVERY behaviour of the executor; every behaviour is replayed through the CLI."""
+    def xcfg(invariants):
+        return ('SPECIFICATION XSpec\nCONSTANTS MaxN = 1\n AtcExits = {0, 5}\n'
+                + ''.join('INVARIANT %s\n' % i for i in invariants) + 'CHECK_DEADLOCK FALSE\n')
+    res = ctx.tlc('Exactly', xcfg(['NothingBeforeParsing', 'CodeMatchesIdentifier', 'KeepStdoutIsOnlyPath',
+                                   'ActModePassThrough', 'SuccessMeansNoFailure', 'SandboxFate', 'StepOrder',
+                                   'CleanupExactlyOnce', 'HaltAtFirstFailure']), coverage=True, name='mc-composed')
+    ctx.require_coverage(res, ['StageOk', 'StageFails', 'Execute', 'ExecuteDone', 'WriteReport'])
+    exp = ctx.tlc('ExactlyExport', xcfg(['Export']), workers=1, name='export-composed', count=False, timeout=3000)
+    runs = exp.printed_json('RUN')
+    groups = {}
+    for r in runs:
+        executed = any(e[0] == 'execute' and e[3] == 'ok' for e in r['log'])
+        if (not executed and r['atcExit'] != 0) or (r['pre'] != 'none' and (r['atcExit'] != 0 or r['st'] != 'PASS'
+                                                                          or any(r['n'].values()))):
+            continue        # the exit code / shape is irrelevant there: one representative
+        key = json.dumps([r['n'], r['st'], r['mode'], r['log'], r['pre'], r['atcExit']], sort_keys=True)
+        groups.setdefault(key, []).append(r)
+    keys = sorted(groups)
+    if quick:
+        rnd = random.Random(ctx.seed + 11)
+        keys = rnd.sample(keys, min(len(keys), 6000))
+    tasks, owner = [], []
+    for key in keys:
+        r = groups[key][0]
+        flag = MODE_FLAG[r['mode']]
+        if r['pre'] == 'none':
+            text = casegen.case_from_log(r['n'], r['st'], r['log'], r['atcExit'])
+            if text is None:
+                continue
+            tasks.append(dict(files={'c.case': text}, argv=flag + ['c.case']))
+            owner.append(key)
+        else:
+            base = casegen.case_from_log(dict(conf=0, setup=1, ba=0, cleanup=1, **{'assert': 1}), 'PASS', [], 0)
+            for v in PRE_VARIANTS[r['pre']][:2]:
+                text = base
+                if 'inject' in v:
+                    ph, line = v['inject']
+                    hdr = '[%s]\n' % casegen.PHASE_NAME[ph]
+                    text = text.replace(hdr, hdr + line + '\n', 1)
+                argv = v.get('argv') or (v.get('pre_argv', []) + ['c.case'])
+                tasks.append(dict(files={'c.case': text + v.get('append', '')}, argv=flag + argv))
+                owner.append(key)
+    with ctx.pool() as pool:
+        obs = pool.map('harness.props.c02:exec_variant', tasks, deadline=60, chunk=16)
+    bad = 0
+    for t, key, o in zip(tasks, owner, obs):
+        ctx.count()
+        g = groups[key]
+        ctx.nontrivial('composed:' + key)
+        exps = [dict(exit=r['exit'], out=r['out'], err=r['err'], mode=r['mode'], sds=r['sds'] == 'kept') for r in g]
+        clauses = [matches(e, o) for e in exps]
+        if all(c is not None for c in clauses):
+            bad += 1
+            r = g[0]
+            ctx.fail('Composed %s n=%s st=%s mode=%s pre=%s script=%s' % (
+                clauses[0].split(':')[0], json.dumps(r['n'], sort_keys=True), r['st'], r['mode'], r['pre'],
+                [e for e in r['log'] if e[3] != 'ok']),
+                dict(kind='run', how='in-process', run=dict(mode=r['mode'], sds=r['sds'] == 'kept'),
+                     expected=[dict(exit=e['exit'], out=e['out'], err=e['err'], verdict='?') for e in exps],
+                     task=t, observed=o, clause=clauses[0]))
+    ctx.cov['traces_validated_against_impl'] += len(tasks)
+    ctx.cov.setdefault('replay', {})['composed machine (Exactly.tla)'] = dict(
+        behaviours=len(groups), replayed=len(tasks), disagreements=bad)
+
+
 def negative_controls(ctx, groups, tasks, obs, owner):
     rnd = random.Random(ctx.seed + 1)
     tried = rejected = 0
@@ -187,6 +255,7 @@ def run(ctx):
     runs = exp.printed_json('CASE')
     groups, tasks, obs, owner = check_runs(ctx, runs, 'all runs', subprocess_sample=(24 if quick else 400))
     negative_controls(ctx, groups, tasks, obs, owner)
+    composed(ctx, quick)
     for j in range(0, len(tasks), max(1, len(tasks) // 4)):
         g = groups[owner[j]][0]
         ctx.sample(dict(run={k: g[k] for k in ('tc', 'mode', 'pre', 'endStep', 'endO', 'cleanupO', 'atcExit')},
@@ -195,6 +264,8 @@ def run(ctx):
     ctx.cov['exhaustive'] = True
     ctx.cov['rule'] = ('every run of OutcomeReport.tla (status x mode x pre-execution ending x failing executor step x '
                        'outcome x cleanup fault x ATC exit code in %s) rendered as test-case text and executed; '
+                       'plus every behaviour of the composed machine Exactly.tla (stages before execution + all of '
+                       'PhaseExec for MaxN = 1 + reporter; a seeded sample of 6000 in the quick tier); '
                        'non-trivial = distinct concrete case other than the plain passing one'
                        % ('{0,1,5,255}' if quick else '0..255'))
     ctx.assumptions += ['act-step faults and instruction-step faults that real instructions cannot produce are scripted '
